@@ -254,7 +254,9 @@ def main():
         "assumptions": cfg.get("assumptions", []),
         "wall_s": round(time.time() - t0, 2), "violations": violations,
     }
-    json.dump(ev, open(os.path.join(VERIF, "evidence", prop + ".json"), "w"), indent=1)
+    evdir = os.environ.get("VERIF_EVIDENCE_DIR") or os.path.join(VERIF, "evidence")       # (sweeps write elsewhere)
+    os.makedirs(evdir, exist_ok=True)
+    json.dump(ev, open(os.path.join(evdir, prop + ".json"), "w"), indent=1)
     for l in lines: print(l)
     log(f"{prop} tier={tier} seed={seed} theorems={len(names)} discharged={discharged} evaluations={evaluations} distinct={distinct} disagreements={len(disagreements)} oracle_failures={len(oracle_failures)} rc={rc} wall={ev['wall_s']}s")
     return rc
